@@ -1,1 +1,33 @@
-//! Hooks for property C04 (empty unless needed).
+//! Hooks for properties C04–C06: the crate-private relay frame codec, so that a frame-level
+//! harness stream can speak to [`crate::server::clients::Clients`].
+use bytes::{Bytes, BytesMut};
+
+use crate::{
+    KeyCache,
+    http::ProtocolVersion,
+    protos::relay::{ClientToRelayMsg, Error, RelayToClientMsg},
+};
+
+/// Encodes a client-to-relay message as the real client does.
+pub fn client_to_relay_bytes(msg: &ClientToRelayMsg) -> BytesMut {
+    msg.to_bytes()
+}
+
+/// Decodes a client-to-relay frame as the real server does.
+pub fn client_to_relay_from_bytes(bytes: Bytes, cache: &KeyCache) -> Result<ClientToRelayMsg, Error> {
+    ClientToRelayMsg::from_bytes(bytes, cache)
+}
+
+/// Encodes a relay-to-client message as the real server does.
+pub fn relay_to_client_bytes(msg: &RelayToClientMsg) -> BytesMut {
+    msg.to_bytes()
+}
+
+/// Decodes a relay-to-client frame as the real client does.
+pub fn relay_to_client_from_bytes(
+    bytes: Bytes,
+    cache: &KeyCache,
+    version: ProtocolVersion,
+) -> Result<RelayToClientMsg, Error> {
+    RelayToClientMsg::from_bytes(bytes, cache, version)
+}
